@@ -146,3 +146,51 @@ Example processQ_ids :
                        [pt (qq 0 1) (qq 1 1) (qq 0 1); pt (qq 0 1) (qq (-1) 1) (qq 0 1)] pQ)
   = repeat 0 8 ++ repeat 1 8.
 Proof. vm_compute. reflexivity. Qed.
+
+(** ** A signed axis permutation of that wall: [m v = (- v[2], v[0], - v[1])]
+    ([sigma] = 2,0,1; signs -1, 1, -1).  The hypotheses of [C08_axis_permutation] are met; the
+    image wall lies in the plane z = -7/4 (flat axis 2), its in-plane axes 0, 1 carry the old
+    axes 2, 0 (exchanged), so it has 2 x 4 patches. *)
+From Coq Require Import Permutation.
+From SV Require Import Proofs.TilingPerm.
+Definition sigmaQ (d : nat) : nat := match d with 0 => 2 | 1 => 0 | _ => 1 end.
+Definition mQ (v : @vec Qc) : @vec Qc :=
+  mkv (- (1) * vget v (sigmaQ 0))%T (1 * vget v (sigmaQ 1))%T (- (1) * vget v (sigmaQ 2))%T.
+
+Example sigmaQ_perm : Permutation [sigmaQ 0; sigmaQ 1; sigmaQ 2] [0; 1; 2].
+Proof. simpl. eapply perm_trans; [apply perm_swap|]. apply perm_skip. apply perm_swap. Qed.
+
+Example wallQ_axis_permutation :
+  exists f' o, f' < 3 /\ sigmaQ f' = 1 /\ o < 8 /\
+    wall_ok (map_quad mQ wallQ) pQ f' ((match f' with 0 => - (1) | 1 => 1 | _ => - (1) end) * qq 7 4)%T /\
+    (forall d, d < 3 -> size (map_quad mQ wallQ) d = size wallQ (sigmaQ d) /\
+                        patch_num (map_quad mQ wallQ) pQ d = patch_num wallQ pQ (sigmaQ d) /\
+                        real_size (map_quad mQ wallQ) pQ d = real_size wallQ pQ (sigmaQ d)) /\
+    Permutation (create_patches (map_quad mQ wallQ) pQ)
+                (map (fun Q => reorder o (map_quad mQ Q)) (create_patches wallQ pQ)).
+Proof.
+  exact (C08_axis_permutation sigmaQ (- (1))%T 1%T (- (1))%T wallQ pQ 1 (qq 7 4) sigmaQ_perm
+           (or_intror eq_refl) (or_introl eq_refl) (or_intror eq_refl) wallQ_ok).
+Qed.
+
+(** run on it: counts 2 x 4 with flat axis 2; old cell (2,1) (index 5) is the new cell
+    ((2-1-1), 2) (index 0*4 + 2) with its vertices in the order [reorder 3] *)
+Example wallQ_image_counts :
+  patch_num (map_quad mQ wallQ) pQ 0 = 2 /\ patch_num (map_quad mQ wallQ) pQ 1 = 4 /\
+  patch_num (map_quad mQ wallQ) pQ 2 = 0 /\ length (create_patches (map_quad mQ wallQ) pQ) = 8.
+Proof. vm_compute. repeat split. Qed.
+
+Example wallQ_image_cell :
+  ord_of true true false = 3 /\ flip true 2 1 * 4 + flip false 4 2 = 2 /\
+  quad_eqb (nth 2 (create_patches (map_quad mQ wallQ) pQ) dquad)
+           (reorder 3 (map_quad mQ (nth 5 (create_patches wallQ pQ) dquad))) = true.
+Proof. vm_compute. repeat split. Qed.
+
+Example wallQ_kang_axis_permutation :
+  exists o, o < 8 /\
+    Permutation (kang_patches (map_quad mQ wallQ) pQ)
+                (map (fun Q => reorder o (map_quad mQ Q)) (kang_patches wallQ pQ)).
+Proof.
+  exact (C08_kang_axis_permutation sigmaQ (- (1))%T 1%T (- (1))%T wallQ pQ 1 (qq 7 4) sigmaQ_perm
+           (or_intror eq_refl) (or_introl eq_refl) (or_intror eq_refl) wallQ_ok).
+Qed.
